@@ -22,6 +22,7 @@ import Scalibr.Proofs.Semantic.SpecRubyGems
 import Scalibr.Proofs.Semantic.SpecPyPI
 import Scalibr.Proofs.Semantic.SpecReaders
 import Scalibr.Proofs.Semantic.SpecRedHat
+import Scalibr.Proofs.Semantic.Order
 namespace Scalibr.Semantic
 
 /-! ## generic wrappers -/
@@ -111,9 +112,9 @@ theorem C07_packagist_antisymm : Antisymm .packagist := laws_antisymm (f := .pac
 /-- Full statement `TransOn .packagist (accepted)` is FALSE (next theorem). Total preorder on the
 versions without a `#…` component — `#` is `comparePackagistComponents`' own stand-in for "a
 number" and is not part of the ecosystem's grammar. -/
-theorem C07_packagist_trans_partial : TransOn .packagist (fun s => grammarValid .packagist s = true) := by
+theorem C07_packagist_trans_partial : TransOn .packagist (fun s => acceptedByCode .packagist s = true) := by
   intro a b d ha hb hd h1 h2
-  have lift : ∀ s, grammarValid .packagist s = true → parsesTo packagistFam pkNoHashP s :=
+  have lift : ∀ s, acceptedByCode .packagist s = true → parsesTo packagistFam pkNoHashP s :=
     fun s hs => ⟨parsePk s, rfl, hs⟩
   exact packagist_laws.transS pkNoHashP cmpPkS_isCmpOn a b d (lift a ha) (lift b hb) (lift d hd) h1 h2
 
@@ -124,7 +125,7 @@ theorem C07_packagist_trans_fails : ¬ TransOn .packagist (fun s => accepted .pa
     (by decide) (by decide)
   exact absurd this (by decide)
 
-example : grammarValid .packagist ['1', '.', '1', '0', '-', 'R', 'C', '2'] = true := by decide
+example : acceptedByCode .packagist ['1', '.', '1', '0', '-', 'R', 'C', '2'] = true := by decide
 
 /-- the repaired behaviour (8171abe1): a 20-digit component is a number -/
 theorem C07_packagist_long_number :
@@ -136,15 +137,15 @@ theorem C07_alpine_total : Total .alpine := laws_total (f := .alpine) alpine_law
 theorem C07_alpine_refl : Refl .alpine := laws_refl (f := .alpine) alpine_laws
 theorem C07_alpine_antisymm : Antisymm .alpine := laws_antisymm (f := .alpine) alpine_laws
 
-/-- Full statement `TransOn .alpine (grammarValid)` is FALSE (next theorem; known finding
+/-- Full statement `TransOn .alpine (acceptedByCode)` is FALSE (next theorem; known finding
 C07/alpine-leading-zero-padding). Total preorder on the valid versions none of whose later
 components is written with a leading zero. -/
 theorem C07_alpine_trans_partial :
-    TransOn .alpine (fun s => grammarValid .alpine s = true ∧ knownClass .alpine s = false) := by
+    TransOn .alpine (fun s => acceptedByCode .alpine s = true ∧ knownClass .alpine s = false) := by
   intro a b d ha hb hd h1 h2
-  have lift : ∀ s, (grammarValid .alpine s = true ∧ knownClass .alpine s = false) → parsesTo alpineFam AlpV.canonValid s := by
+  have lift : ∀ s, (acceptedByCode .alpine s = true ∧ knownClass .alpine s = false) → parsesTo alpineFam AlpV.canonValid s := by
     intro s ⟨hg, hk⟩
-    simp only [grammarValid] at hg
+    simp only [acceptedByCode] at hg
     simp only [knownClass] at hk
     cases hp : parseAlp s with
     | ok v =>
@@ -155,13 +156,13 @@ theorem C07_alpine_trans_partial :
   exact alpine_laws.transS AlpV.canonValid cmpAlpT_isCmpOn a b d (lift a ha) (lift b hb) (lift d hd) h1 h2
 
 /-- `1.0 = 1`, `1 = 1.00`, but `1.0 < 1.00` — all three grammar-valid -/
-theorem C07_alpine_trans_fails : ¬ TransOn .alpine (fun s => grammarValid .alpine s = true) := by
+theorem C07_alpine_trans_fails : ¬ TransOn .alpine (fun s => acceptedByCode .alpine s = true) := by
   intro h
   have := (h ['1', '.', '0'] ['1'] ['1', '.', '0', '0'] (by decide) (by decide) (by decide) (by decide) (by decide)).2.2
     (by decide) (by decide)
   exact absurd this (by decide)
 
-example : grammarValid .alpine ['1', '.', '2', '.', '1', '0', 'a', '_', 'r', 'c', '1', '-', 'r', '3'] = true ∧
+example : acceptedByCode .alpine ['1', '.', '2', '.', '1', '0', 'a', '_', 'r', 'c', '1', '-', 'r', '3'] = true ∧
     knownClass .alpine ['1', '.', '2', '.', '1', '0', 'a', '_', 'r', 'c', '1', '-', 'r', '3'] = false := by decide
 example : knownClass .alpine ['1', '.', '0', '0'] = true := by decide
 
@@ -383,5 +384,114 @@ theorem C07_spec_readers :
     (∀ v : RubySpec.V, v.wf = true → RubySpec.specParse (RubySpec.render v) = some v) ∧
     (∀ v : CranSpec.V, CranSpec.specParse (CranSpec.render v) = some v) :=
   ⟨debian_specParse_render, rubygems_specParse_render, cran_specParse_render⟩
+
+/-! ## the published grammar, and the total preorder in the vocabulary of `Spec/VersionOrder.lean`
+
+`Grammar f` (`Spec/Semantic/Grammar.lean`) is the PUBLISHED grammar for the seven families with a
+formalised rule — canonical texts `render v` of well-formed structured versions, no reference to the
+implementation's parser — and the code-defined domain `codeDomain` (accepted by the code's parser,
+outside the known finding's class) for Packagist, Alpine and Maven. -/
+
+/-- every canonical text of the published grammar is accepted by `Parse` (corollaries of `_spec`) -/
+theorem C07_semver_render_accepted (v : SemVer) (h : v.wf = true) : accepted .semver v.render = true :=
+  accepted_of_ofOrd (C07_semver_spec v v h h)
+theorem C07_nuget_render_accepted (v : NuGetSpec.V) (h : v.wf = true) : accepted .nuget (NuGetSpec.render v) = true :=
+  accepted_of_ofOrd (C07_nuget_spec v v h h)
+theorem C07_cran_render_accepted (v : CranSpec.V) : accepted .cran (CranSpec.render v) = true :=
+  accepted_of_ofOrd (C07_cran_spec v v)
+theorem C07_debian_render_accepted (v : DebSpec.V) (h : v.wf = true) : accepted .debian (DebSpec.render v) = true :=
+  accepted_of_ofOrd (C07_debian_spec v v h h)
+theorem C07_rubygems_render_accepted (v : RubySpec.V) (h : v.wf = true) : accepted .rubygems (RubySpec.render v) = true :=
+  accepted_of_ofOrd (C07_rubygems_spec v v h h)
+theorem C07_redhat_render_accepted (v : RpmSpec.V) (h : v.wf = true) : accepted .redhat (RpmSpec.render v) = true :=
+  accepted_of_ofOrd (C07_redhat_spec v v h h)
+theorem C07_pypi_render_accepted (v : PepSpec.V) (h : v.wf = true) : accepted .pypi (PepSpec.render v) = true :=
+  accepted_of_ofOrd (C07_pypi_spec v v h h)
+
+/-- every string of the grammar is accepted by `Parse` -/
+theorem C07_grammar_accepted : ∀ f s, Grammar f s → accepted f s = true := by
+  intro f s h
+  cases f
+  · obtain ⟨v, hv, e⟩ := h; exact e ▸ C07_semver_render_accepted v hv
+  · obtain ⟨v, hv, e⟩ := h; exact e ▸ C07_nuget_render_accepted v hv
+  · obtain ⟨v, e⟩ := h; exact e ▸ C07_cran_render_accepted v
+  · obtain ⟨v, hv, e⟩ := h; exact e ▸ C07_debian_render_accepted v hv
+  · obtain ⟨v, hv, e⟩ := h; exact e ▸ C07_rubygems_render_accepted v hv
+  · obtain ⟨v, hv, e⟩ := h; exact e ▸ C07_redhat_render_accepted v hv
+  · rfl
+  · obtain ⟨v, hv, e⟩ := h; exact e ▸ C07_pypi_render_accepted v hv
+  · obtain ⟨ha, _⟩ := h
+    simp only [acceptedByCode] at ha
+    apply (accepted_iff alpineFam s).mpr
+    show ∃ v, parseAlp s = .ok v
+    cases hp : parseAlp s with
+    | ok v => exact ⟨v, rfl⟩
+    | err => rw [hp] at ha; exact absurd ha (by simp)
+    | panic => rw [hp] at ha; exact absurd ha (by simp)
+  · exact h.1
+
+/-- `Parse` + `CompareStr` is a total preorder on the grammar of every family: `≤` is transitive,
+strictness is inherited from either side, equality is transitive. For the seven published grammars
+this is implied by the stronger `C07_<f>_trans` (all accepted strings); for Packagist, Alpine and
+Maven it is the `_trans_partial` theorem. -/
+theorem C07_preorder : ∀ f, TransOn f (Grammar f)
+  | .semver => C07_semver_trans.mono (C07_grammar_accepted .semver)
+  | .nuget => C07_nuget_trans.mono (C07_grammar_accepted .nuget)
+  | .cran => C07_cran_trans.mono (C07_grammar_accepted .cran)
+  | .debian => C07_debian_trans.mono (C07_grammar_accepted .debian)
+  | .rubygems => C07_rubygems_trans.mono (C07_grammar_accepted .rubygems)
+  | .redhat => C07_redhat_trans.mono (C07_grammar_accepted .redhat)
+  | .pypi => C07_pypi_trans.mono (C07_grammar_accepted .pypi)
+  | .packagist => C07_packagist_trans_partial.mono (fun _ h => h.1)
+  | .alpine => C07_alpine_trans_partial.mono (fun _ h => h)
+  | .maven => C07_maven_trans_partial.mono (fun _ h => h.2)
+
+/-- the same, packaged for C11 / C18: on every list of versions of the family's grammar the comparison
+(as an `Ordering`) satisfies `Scalibr.Upgrade.TotalPreorderOn` -/
+theorem C07_total_preorder_on (f : Fam) (vs : List (List Char)) (h : ∀ s ∈ vs, Grammar f s) :
+    Upgrade.TotalPreorderOn (cmpOrd f) vs :=
+  preorder_on (C07_all_total f) (C07_all_refl f) (C07_all_antisymm f) (C07_preorder f) (C07_grammar_accepted f) vs h
+
+/-- hence a rank function exists on such a list (what the guided-remediation models assume) -/
+theorem C07_rank_exists (f : Fam) (vs : List (List Char)) (h : ∀ s ∈ vs, Grammar f s) :
+    ∃ rank, Upgrade.RankFor (cmpOrd f) vs rank :=
+  (Upgrade.rank_exists_iff (cmpOrd f) vs).mpr (C07_total_preorder_on f vs h)
+
+/-- for the seven families whose comparison is a total preorder on ALL accepted strings, the package
+holds on every list of accepted versions, canonical or not -/
+theorem C07_total_preorder_on_accepted (f : Fam) (hf : f ≠ .packagist ∧ f ≠ .alpine ∧ f ≠ .maven)
+    (vs : List (List Char)) (h : ∀ s ∈ vs, accepted f s = true) : Upgrade.TotalPreorderOn (cmpOrd f) vs := by
+  have t : TransOn f (fun s => accepted f s = true) := by
+    cases f
+    · exact C07_semver_trans
+    · exact C07_nuget_trans
+    · exact C07_cran_trans
+    · exact C07_debian_trans
+    · exact C07_rubygems_trans
+    · exact C07_redhat_trans
+    · exact absurd rfl hf.1
+    · exact C07_pypi_trans
+    · exact absurd rfl hf.2.1
+    · exact absurd rfl hf.2.2
+  exact preorder_on (C07_all_total f) (C07_all_refl f) (C07_all_antisymm f) t (fun _ h => h) vs h
+
+/-- the Maven cycle `1 < 1.foo < 1rc`, `1 > 1rc` (known finding C07/maven-qualifier-cycle) in the same
+vocabulary: on these three versions the comparator has NO rank function (`no_rank_of_cycle`,
+C11's `C11_no_rank_of_cycle`), so no model that ranks versions can describe it -/
+theorem C07_maven_no_rank :
+    ¬ ∃ rank, Upgrade.RankFor (cmpOrd .maven) [['1'], ['1', '.', 'f', 'o', 'o'], ['1', 'r', 'c']] rank :=
+  Upgrade.no_rank_of_cycle (cmpOrd .maven) _ _ _ (by decide) (by decide) (by decide)
+
+/-- non-vacuity: `2.0.0.rc.0.a` (interior zero segments) and `2.0.0.rc` are in the RubyGems grammar and
+the former is the OLDER one; `1.0-rc-1` is in Maven's code-defined domain, `1.foo` is not -/
+example : Grammar .rubygems ['2', '.', '0', '.', '0', '.', 'r', 'c', '.', '0', '.', 'a'] :=
+  ⟨⟨[.num 2, .num 0, .num 0, .str ['r', 'c'], .num 0, .str ['a']]⟩, by decide, by decide⟩
+example : Grammar .rubygems ['2', '.', '0', '.', '0', '.', 'r', 'c'] :=
+  ⟨⟨[.num 2, .num 0, .num 0, .str ['r', 'c']]⟩, by decide, by decide⟩
+example : cmpOrd .rubygems ['2', '.', '0', '.', '0', '.', 'r', 'c', '.', '0', '.', 'a'] ['2', '.', '0', '.', '0', '.', 'r', 'c'] = .lt := by decide
+example : Grammar .maven ['1', '.', '0', '-', 'r', 'c', '-', '1'] ∧ ¬ Grammar .maven ['1', '.', 'f', 'o', 'o'] := by
+  constructor
+  · exact ⟨by decide, by decide⟩
+  · intro h; exact absurd h.2 (by decide)
 
 end Scalibr.Semantic
